@@ -424,7 +424,16 @@ static void judge(PDU& root, const Bytes& w, const std::string& kase, const Plan
             // --- what the dissector found wrong by itself (checksums, overruns, chains)
             bool ext_allowed = true;
             if (L.t == PDU::ICMPv6) ext_allowed = static_cast<const ICMPv6&>(*L.p).type() == ICMPv6::TIME_EXCEEDED;     // libtins derives the RFC 4884 octet only there
+            bool nd_judged = true;      // neighbour discovery options / MLDv2 records: only what the wire format can express, and nothing appended behind them
+            if (L.t == PDU::ICMPv6) {
+                const ICMPv6& c6 = static_cast<const ICMPv6&>(*L.p);
+                if (ch) nd_judged = false;
+                for (auto& op : c6.options()) if ((op.data_size() + 2) % 8 != 0 || op.length_field() != op.data_size()) nd_judged = false;
+                for (auto& r : c6.multicast_address_records()) if (r.aux_data.size() % 4 != 0 || r.aux_data.size() > 1020) nd_judged = false;
+                if (nd_judged && (D.nd_options || D.mld_records >= 0)) R.count("icmpv6_option_lists_checked");
+            }
             for (auto& is : D.issues) {
+                if (!nd_judged && (is.sig.compare(0, 10, "icmpv6:nd-") == 0 || is.sig.compare(0, 12, "icmpv6:mld2-") == 0)) continue;
                 if (derailed && is.sig.compare(0, 4, "ip6:") == 0) continue;      // consequences of the extension header length reported above
                 if (!ext_allowed && (is.sig.compare(0, 8, "icmp-ext") == 0 || is.sig.compare(0, 12, "icmp:rfc4884") == 0 || is.sig == "cksum:icmp-extension-structure")) continue;
                 if (is.sig == "pppoe:tag-length" && ch) continue;         // tags followed by a payload: not a discovery frame the API means to build
